@@ -60,7 +60,7 @@ READABLE = {"": ["true"], "mem": ["false"], "stale": ["true", "false"]}
 
 def run(c):
     thorough = c.tier == "thorough"
-    c.go2coq_sources = ["filters.go", "filters_types.go", "filters_state.go", "filters_helpers.go", "filters_total2.go"]   # private translator build: another family's generator cannot break this check
+    c.go2coq_sources = ["filters.go", "filters_types.go", "filters_state.go", "filters_helpers.go", "filters_total2.go", "filters_walker.go"]   # private translator build: another family's generator cannot break this check
     c.rule = ("one rule per (filter constructor instance | At() | Do() function, capture shape incl. comment-rule captures) with Report(`$x|$$`) and Suggest(`$x`), run under "
               "(TruncateLen, Go version, fresh/reused state) settings; evaluations count engine runs of one rule under one "
               "setting; a case is distinct by (instance, shape, setting) and non-trivial when the rule delivered reports")
@@ -133,6 +133,9 @@ def run(c):
                 inp["report"], inp["suggest"] = "$x|$y|$$ ($y only when the pattern binds it)", "$x (`$y; $x` for some two-variable rules)"
                 if r.get("where", "").startswith("(") and ") && !(" in r.get("where", ""):
                     inp["report"] = inp["suggest"] = "(the rule never reports: its filter has the rejecting form F && !F, so that every rule of the engine is evaluated on every match)"
+            if r["shape"] == "unicode":
+                inp["report"], inp["suggest"] = "`$x|$$` / `$x and $y in $$` / comment rules `$x|$$`, `$x,$y|$$`", "$x / $y"
+                inp["target"] = "harness/cmd/c07/unicode.go: identifiers, string literals and comments made of 1- to 4-byte characters, every length 1..22, every width first and last"
             if r.get("site"):
                 inp["site"] = r["site"]
                 if r["shape"] == "deep":
